@@ -31,8 +31,9 @@ Section Laws.
   Lemma decode_full_total b :
     returns (decode b) -> returns (decode_full T decode b).
   Proof using T decode.
-    unfold decode_full, bind. destruct (decode b) as [[q r]| | |]; simpl; try tauto.
-    destruct r; simpl; tauto.
+    clear encode_bytes.
+    unfold decode_full, bind. destruct (decode b) as [[q r]| | |]; simpl; intros H; try exact H.
+    destruct r; exact I.
   Qed.
 
   Lemma decode_mut_ok b p r :
